@@ -107,6 +107,9 @@ def gen_cases(g, n):
             name, args, klass = r.choice(CAT_D1), [a], "D"
         else:
             name, args, klass = r.choice(CAT_D2), [a, b], "D"
+        if kw.get("out") and isinstance(getattr(np, name), np.ufunc) and r.random() < 0.5:
+            # out= together with where=: elements where the mask is False keep what the target held before the call
+            kw = dict(kw, where=[r.random() < 0.5 for _ in range(sz)])
         cases.append({"name": name, "cls": klass, "args": args, "kw": kw, "k": k, "mode": mode if len(args) > 1 else "single",
                       "lane": g.lane})
     return cases
@@ -136,6 +139,13 @@ def run_one(osy, case):
         out_obj = osy.Array(values=np.zeros(first.shape, dtype=np.float64), unit="vt1" if case["lane"] == "exact" else "s")
         kw["out"] = out_obj
         kw_raw["out"] = np.zeros(first.shape, dtype=np.float64)
+        if kw.get("where") is not None:
+            prev = np.arange(1, int(np.prod(first.shape, dtype=int)) + 1, dtype=np.float64).reshape(first.shape) * 0.25      # what the target holds before
+            out_obj._array[...] = prev
+            kw_raw["out"][...] = prev
+            mask = np.array(kw["where"], dtype=bool).reshape(first.shape)
+            kw["where"] = mask
+            kw_raw["where"] = mask
     seq = name in CAT_BSEQ
     if name == "power":
         kk = float(case["k"]) if case["k"].denominator != 1 else int(case["k"])
